@@ -29,7 +29,9 @@ SHIM_HEAD = '''//go:build verif
 
 package %(pkg)s
 
-import "math/big"
+import (
+	"math/big"
+@IMPORTS@)
 
 var _ = big.NewInt
 '''
@@ -40,6 +42,7 @@ def has(src, pat):
 names = []
 for cdir, pkg, groups in curves:
     shim = SHIM_HEAD % dict(pkg=pkg)
+    imports = set()
     for G, fn, kind, ctype in groups:
         src = open(os.path.join(REPO, "ecc", cdir, fn)).read()
         g = G.lower()
@@ -65,7 +68,7 @@ for cdir, pkg, groups in curves:
         # ---- shim ----
         if G == "G2" and kind != "fp":
             shim += "\n// VerifG2Coord is the coordinate field of the twist.\ntype VerifG2Coord = fptower.%s\n" % kind.upper()
-            shim = shim.replace('import "math/big"', 'import (\n\t"math/big"\n\n\t"github.com/consensys/gnark-crypto/ecc/%s/internal/fptower"\n)' % cdir)
+            imports.add("github.com/consensys/gnark-crypto/ecc/%s/internal/fptower" % cdir)
         shim += "\n// ---- %s ----\n\n// Verif%sJacExtended exposes the extended-Jacobian bucket type.\ntype Verif%sJacExtended = %s\n\n" % (G, G, G, ext)
         if feat["windowed"]:
             shim += "func (p *%sJac) VerifMulWindowed(q *%sJac, s *big.Int) *%sJac { return p.mulWindowed(q, s) }\n\n" % (G, G, G)
@@ -78,6 +81,12 @@ for cdir, pkg, groups in curves:
         shim += "func Verif%sJacFromExt(p *%sJac, q *%s)    { p.fromJacExtended(q) }\n" % (G, G, ext)
         if feat["unsafeFromExt"]:
             shim += "func Verif%sJacUnsafeFromExt(p *%sJac, q *%s) { p.unsafeFromJacExtended(q) }\n" % (G, G, ext)
+        if feat["multiexp"]:
+            shim += "\n// VerifInnerMsm%s runs the bucket method with a forced window size c.\nfunc VerifInnerMsm%s(c uint64, points []%sAffine, scalars []fr.Element, nbTasks int) %sJac {\n\tvar p %sJac\n\t_innerMsm%s(&p, c, points, scalars, ecc.MultiExpConfig{NbTasks: nbTasks})\n\treturn p\n}\n" % (G, G, G, G, G, G)
+            if G == "G1":
+                shim += "\n// VerifPartitionScalars forwards to partitionScalars (digits only).\nfunc VerifPartitionScalars(scalars []fr.Element, c uint64, nbTasks int) []uint16 {\n\td, _ := partitionScalars(scalars, c, nbTasks)\n\treturn d\n}\n"
+                imports.add("github.com/consensys/gnark-crypto/ecc")
+                imports.add("github.com/consensys/gnark-crypto/ecc/%s/fr" % cdir)
         # ---- adapter ----
         name = "%s_%s" % (pkg, G)
         fnname = pkg.capitalize() + G
@@ -184,6 +193,85 @@ for cdir, pkg, groups in curves:
 		}
 		return out
 	}''' % dict(G=G, J=J)
+        if feat["multiexp"]:
+            msrc = open(os.path.join(REPO, "ecc", cdir, "multiexp.go")).read()
+            wl = re.findall(r"implementedCs := \[\]uint64\{([^}]*)\}", msrc)
+            wins = wl[0] if G == "G1" else wl[-1]
+            extra += '''
+	var msmPool []%(A)s
+	g.FrBits = fr.Bits
+	g.MSMWindows = []uint64{%(wins)s}
+	g.MSMSetPool = func(pool []Rep) {
+		msmPool = make([]%(A)s, len(pool))
+		for i := range pool {
+			msmPool[i] = aff(pool[i])
+		}
+	}
+	build := func(idx []int, scalars []*big.Int) ([]%(A)s, []fr.Element) {
+		pts := make([]%(A)s, len(idx))
+		for i, j := range idx {
+			pts[i] = msmPool[j]
+		}
+		sc := make([]fr.Element, len(scalars))
+		for i := range sc {
+			sc[i].SetBigInt(scalars[i])
+		}
+		return pts, sc
+	}
+	g.MultiExp = func(idx []int, scalars []*big.Int, nbTasks int, variant string) (Rep, error) {
+		pts, sc := build(idx, scalars)
+		keepP := append([]%(A)s(nil), pts...)
+		keepS := append([]fr.Element(nil), sc...)
+		var out Rep
+		var err error
+		if variant == "aff" {
+			var r %(A)s
+			_, err = r.MultiExp(pts, sc, ecc.MultiExpConfig{NbTasks: nbTasks})
+			out = repAff(&r)
+		} else {
+			var r %(J)s
+			_, err = r.MultiExp(pts, sc, ecc.MultiExpConfig{NbTasks: nbTasks})
+			out = repJac(&r)
+		}
+		for i := range pts {
+			if pts[i] != keepP[i] {
+				return out, ErrInputModified
+			}
+		}
+		for i := range sc {
+			if sc[i] != keepS[i] {
+				return out, ErrInputModified
+			}
+		}
+		return out, err
+	}
+	g.Fold = func(idx []int, coeff *big.Int, nbTasks int, variant string) (Rep, error) {
+		pts, _ := build(idx, nil)
+		var cf fr.Element
+		cf.SetBigInt(coeff)
+		if variant == "aff" {
+			var r %(A)s
+			_, err := r.Fold(pts, cf, ecc.MultiExpConfig{NbTasks: nbTasks})
+			return repAff(&r), err
+		}
+		var r %(J)s
+		_, err := r.Fold(pts, cf, ecc.MultiExpConfig{NbTasks: nbTasks})
+		return repJac(&r), err
+	}
+	g.InnerMsm = func(c uint64, idx []int, scalars []*big.Int, nbTasks int) Rep {
+		pts, sc := build(idx, scalars)
+		r := curve.VerifInnerMsm%(G)s(c, pts, sc, nbTasks)
+		return repJac(&r)
+	}''' % dict(G=G, A=A, J=J, wins=wins)
+            if G == "G1":
+                extra += '''
+	g.PartitionScalars = func(scalars []*big.Int, c uint64, nbTasks int) []uint16 {
+		sc := make([]fr.Element, len(scalars))
+		for i := range sc {
+			sc[i].SetBigInt(scalars[i])
+		}
+		return curve.VerifPartitionScalars(sc, c, nbTasks)
+	}'''
         gen_lines = "_, _, gen, _ := curve.Generators()" if len(groups) == 2 and G == "G1" else ("_, _, _, gen := curve.Generators()" if G == "G2" else "_, gen := curve.Generators()")
         code = '''// Code generated by /verif/tools/gengroups.py. DO NOT EDIT.
 
@@ -192,6 +280,7 @@ package groups
 import (
 	"math/big"
 
+	"%(mod)s/ecc"
 	curve "%(mod)s/ecc/%(cdir)s"
 	"%(mod)s/ecc/%(cdir)s/fp"
 	"%(mod)s/ecc/%(cdir)s/fr"
@@ -201,6 +290,7 @@ import (
 
 var _ fp.Element
 var _ fr.Element
+var _ ecc.MultiExpConfig
 
 // %(fnname)s is the adapter for ecc/%(cdir)s %(G)s.
 func %(fnname)s() *Group {
@@ -234,7 +324,8 @@ func %(fnname)s() *Group {
            ops="\n".join(ops), extra=extra, gen_lines=gen_lines)
         open(os.path.join(OUT, "zz_%s.go" % name), "w").write(code)
     if "--shims" in sys.argv:
-        open(os.path.join(REPO, "ecc", cdir, "zz_verif_shim_points.go"), "w").write(shim)
+        imp = ("\n" + "".join('\t"%s"\n' % i for i in sorted(imports))) if imports else ""
+        open(os.path.join(REPO, "ecc", cdir, "zz_verif_shim_points.go"), "w").write(shim.replace("@IMPORTS@", imp))
 
 reg = "\n".join('\t{"%s", %s},' % (n, f) for n, f, _ in names)
 open(os.path.join(OUT, "zz_all.go"), "w").write('''// Code generated by /verif/tools/gengroups.py. DO NOT EDIT.
